@@ -50,6 +50,7 @@ def cells(tier):
         out.append({'kind': 'esc', 'm': 6})
         out.append({'kind': 'multi', 'lines': 2, 'c': 1})
         out.append({'kind': 'succraw', 't': 2, 'c': 1})
+        out.append({'kind': 'copy'})
     else:
         big = []
         for m in range(0, 5):
@@ -75,6 +76,7 @@ def cells(tier):
         out.append({'kind': 'esc', 'm': 7})
         out.append({'kind': 'multi', 'lines': 3, 'c': 2})
         out.append({'kind': 'succraw', 't': 3, 'c': 1})
+        out.append({'kind': 'copy'})
         out.sort(key=lambda x: -(x.get('m', x.get('w', 0)) * 4 +
                                  x.get('succ', 0) * 2 + 3 * x.get('c', 0)))
         return big + out
@@ -127,6 +129,8 @@ def run(cell):
         return run_rt(cell)
     if k == 'succraw':
         return run_succraw(cell)
+    if k == 'copy':
+        return run_copy(cell)
     if k == 'raw':
         return run_raw(cell)
     if k == 'esc':
@@ -357,6 +361,36 @@ def run_succraw(cell):
         api.prove(got[1] == ref[1], 'raw-code', index=i, **info)
         api.prove(got[2] == ref[2], 'raw-text', index=i, **info)
         rest = rest[ref[3]:]
+
+
+def run_copy(cell):
+    """a reply whose text was already looked at is overwritten with
+    Reply.copy() (what validators do to refuse) and then sent: the wire
+    carries the new code and the new text"""
+    from slimta.smtp.io import IO
+    from slimta.smtp.reply import Reply
+    c1 = sym_code('c1')
+    c2 = sym_code('c2')
+    m1 = ['2.1.5 Recipient Ok', 'plain first', ''][api.choice('m1', 3)]
+    m2 = ['5.5.1 Bad sequence of commands', 'second text',
+          '4.2.0 try later'][api.choice('m2', 3)]
+    r = Reply(c1, m1)
+    touched = api.choice('read_first', 3)
+    if touched == 1:
+        _ = r.message
+    elif touched == 2:
+        _ = r.message + ' '
+    other = Reply(c2, m2)
+    r.copy(other)
+    wire = _wire_of([r])
+    sock = FakeSocket([wire], eof=False)
+    io = IO(sock, address=('h', 1))
+    st, rcode, rmsg = _recv(io)
+    info = dict(m1=m1, m2=m2, read_first=touched)
+    api.observe('reply', [st, rcode, rmsg])
+    if api.prove(st == 'ok', 'recv-failed', status=st, **info):
+        api.prove(rcode == c2, 'code-mismatch', **info)
+        api.prove(rmsg == other.message, 'message-mismatch', **info)
 
 
 def run_raw(cell):
